@@ -217,7 +217,7 @@ def classify(case, msg, res=None):
 
 
 # ---------------------------------------------------------------------- the check
-ROUTE_WEIGHTS = [("edges_explicit", 7), ("list", 25), ("tuple", 5), ("numpy", 6), ("from_arrays", 4), ("obj", 6), ("medit", 5), ("geogram", 5),
+ROUTE_WEIGHTS = [("edges_explicit", 12), ("list", 22), ("tuple", 5), ("numpy", 6), ("from_arrays", 4), ("obj", 6), ("medit", 5), ("geogram", 5),
                  ("rewrap", 12), ("triangulate", 7), ("loop", 4), ("copy", 5), ("copy_conn", 5), ("merge", 6)]
 
 
